@@ -47,6 +47,9 @@ type c03rCase struct {
 	// before the failure starts.
 	Resume string `json:"resume"`
 	After  int    `json:"after"`
+	// Bad: the parked call cannot be marshalled (a Get without a row key): when it resumes, serialisation fails
+	// - a per-call error on a healthy connection, or nothing more to report if the connection has failed meanwhile
+	Bad bool `json:"bad,omitempty"`
 }
 
 func c03rRun(c c03rCase) Outcome {
@@ -74,6 +77,7 @@ func c03rInBubble(c c03rCase) (out Outcome) {
 	release := func() { gateOnce.Do(func() { close(gate) }) }
 	defer release()
 	wrote := make(chan struct{}, 16)
+	senderDone := make(chan struct{})
 	var mu sync.Mutex
 	armed, released := false, false
 	opts := memconn.Options{
@@ -90,6 +94,7 @@ func c03rInBubble(c c03rCase) (out Outcome) {
 				// it has returned (a virtual second at most)
 				select {
 				case <-wrote:
+				case <-senderDone:
 				case <-time.After(time.Second):
 				}
 			}
@@ -198,11 +203,14 @@ func c03rInBubble(c c03rCase) (out Outcome) {
 	if !c.Batched {
 		gopts = append(gopts, hrpc.SkipBatch())
 	}
-	inner, _ := hrpc.NewGet(context.Background(), []byte("t"), []byte("r"), append(gopts, hrpc.Families(markerFam("mkparked")))...)
+	parkedKey := []byte("r")
+	if c.Bad {
+		parkedKey = nil
+	}
+	inner, _ := hrpc.NewGet(context.Background(), []byte("t"), parkedKey, append(gopts, hrpc.Families(markerFam("mkparked")))...)
 	pg := &parkedGet{Get: inner, entered: make(chan struct{}), gate: gate}
 	pg.SetRegion(env.reg)
 	pt := track("parked", pg)
-	senderDone := make(chan struct{})
 	go func() {
 		defer close(senderDone)
 		env.rc.QueueRPC(pg)
@@ -286,6 +294,10 @@ func c03rInBubble(c c03rCase) (out Outcome) {
 				t.name, c.Trigger, c.Resume, firstGohbaseStack(gohbaseGoroutines(), "processRPCs", "receiveRPCs", "QueueRPC"))
 		}
 		if _, ok := t.results[0].Error.(region.ServerError); !ok {
+			if c.Bad && t.name == "parked" && t.results[0].Error != nil {
+				// (it resumed while the connection was still up: its own marshalling error)
+				continue
+			}
 			return viol("wrong-error-class", "call %s ended with %T %v, not a region.ServerError", t.name, t.results[0].Error, t.results[0].Error)
 		}
 	}
@@ -304,7 +316,7 @@ func TestC03_SenderRacesFailure(t *testing.T) {
 	theT = t
 	rec := evid.New("C03", "TestC03_SenderRacesFailure",
 		"rapid, virtual time, harness-owned schedule: 0..3 calls are outstanding on a region client and one more sender "+
-			"(unbatched, or the batching goroutine flushing a batched call) is parked INSIDE the serialisation of its request "+
+			"(unbatched, or the batching goroutine flushing a batched call; its request well-formed, or one that cannot be marshalled) is parked INSIDE the serialisation of its request "+
 			"(past the dead-check, not yet registered) when the connection fails by Close / server hang-up / read timeout / "+
 			"server-fatal exception; the sender resumes before the failure, exactly when the failure handler is about to close "+
 			"the connection (it then runs until its request is on the wire), or after the handler finished. Oracle: every call "+
@@ -318,6 +330,7 @@ func TestC03_SenderRacesFailure(t *testing.T) {
 			Trigger:     rapid.SampledFrom([]string{"close", "srv-close", "read-timeout", "srv-fatal"}).Draw(t, "trigger"),
 			Resume:      rapid.SampledFrom([]string{"at-close", "at-close", "after", "before"}).Draw(t, "resume"),
 			After:       rapid.IntRange(0, 2).Draw(t, "after"),
+			Bad:         rapid.IntRange(0, 2).Draw(t, "bad") == 0,
 		}
 	}, c03rRun)
 }
